@@ -162,7 +162,8 @@ def make_data(rng: random.Random, hostile: float = 0.1, drop: float = 0.1) -> di
             for _ in range(rng.randint(0, 4))
         ],
         "h": {"a": rng.choice(V.FRIENDLY_INT), "b": rng.choice(V.FRIENDLY_STR), "k": [1, 2, 3][: rng.randint(0, 3)]},
-        "d": {"a": {"b": [1, 2, {"c": "deep"}]}, "list": ["p", "q", "r"], "x y": 1, "size": 99, "s": "key"},
+        "d": {"a": {"b": [1, 2, {"c": "deep"}]}, "list": ["p", "q", "r"], "x y": 1, "size": 99, "s": "key", "2024": "Y", "7-1": "Z", "a-b": "AB", "": "E", "a.b": "DOT",
+              "first": "F1", "1st": "ST", "é": "U"},
     }
     for k in list(d):
         r = rng.random()
@@ -235,7 +236,7 @@ class GenCfg:
     liquid_tag: bool = True
     comments: bool = True
     wild: float = 0.08  # probability of ill-typed / hostile expression choices
-    text_alphabet: list[str] = field(default_factory=lambda: ["a", "b", " ", "\n", "x-y", ".", "1", "é", "  "])
+    text_alphabet: list[str] = field(default_factory=lambda: ["a", "b", " ", "\n", "x-y", ".", "1", "é", "  ", "\r\n", "\r"])
     template_comments: bool = False
     weird_paths: bool = True  # bracketed roots, nested [x] roots, quoted segments
     loops_stateful: bool = True  # offset: continue, cycle, ifchanged, increment
@@ -317,7 +318,8 @@ class Gen:
         if root in ("d",) or (kind == "any" and self.p(0.3)):
             segs = self.ch(
                 [".a.b[0]", ".a.b[2].c", ".list[1]", ".list.first", ".list.last", ".list.size", "['x y']", ".size",
-                 ".a.b.size", ".list[-1]", ".list[n]", "[s]", "[t]", ".a['b'][1]", '["list"][0]', ".nope", ".a.nope.x", ".list[9]"]
+                 ".a.b.size", ".list[-1]", ".list[n]", "[s]", "[t]", ".a['b'][1]", '["list"][0]', ".nope", ".a.nope.x", ".list[9]",
+                 "['2024']", '["7-1"]', "['a-b']", ".a-b", "['']", "['a.b']", ".first", "['first']", "['1st']", "['é']", ".é", "['size']", "['0']", "[' ']"]
             )
             self.meta.roots.update({"n", "s", "t"} & set(segs.replace("[", " ").replace("]", " ").split()))
             return "d" + segs if root == "d" else root + self.ch([".a", ".b", ".k", "[0]", ".size", ".first", ".last", "[-1]", ".title", "['a']", ".k[0]"])
